@@ -165,7 +165,9 @@ P('C06', claimed=True, level='other',
               'same send time goes into every recursive call, and the result is build(). NetAddr._clump_bundle '
               '(loop invariant, any number of elements): every element goes into exactly one clump, in order; a '
               'clump is closed iff the next element would take it to the limit, so an open clump stays below the '
-              'limit or holds the single element that fits nowhere. The low-level builders: OscMessageBuilder.build '
+              'limit or holds the single element that fits nowhere; NetAddr.send_clumped_bundles sends ONE bundle only when the '
+              'prediction fits the datagram limit, else every clump once, in order, none stamped before its predecessor; '
+              'send_msg/send_bundle hand exactly their arguments and the address\'s own target to the interface. The low-level builders: OscMessageBuilder.build '
               '(the datagram is, in this order, the address string, the tag string of the arguments, and for EVERY argument '
               'exactly the encoding its tag names of ITS value appended at the end - nothing for T F [ ] N; inductive model of '
               'the datagram as the list of its pieces), _get_arg_type (tag by dynamic type), OscBundleBuilder.build (#bundle, '
